@@ -199,10 +199,14 @@ func (m *UnboundedSegmentedMailbox) Dequeue() *ReceiveContext {
 		if deq < segmentSize {
 			continue
 		}
-		// recycle old head
+		// Leave the drained segment to the garbage collector, link intact. The
+		// tail may still point at it (the producer that linked next has not swung
+		// it forward yet) and producers may still hold it from an earlier load:
+		// clearing its link lets such a producer append a fresh segment behind
+		// the dead one and swing the tail onto a chain the consumer never
+		// reaches, and recycling it lets a producer with a stale pointer write
+		// into a segment that has since been handed to another mailbox.
 		m.head.Store(next)
-		seg.next.Store(nil)
-		segmentPool.Put(seg)
 		seg = next
 	}
 }
